@@ -53,7 +53,9 @@ NOBODY = "Vector__XXX"
 RESERVED_FRAME_NAMES = [FREE_SIGNALS_FRAME]
 
 
-def gen_desc(rng, many_groups=False, common_prefix=False):
+def gen_desc(rng, many_groups=False, common_prefix=False, own_names=False):
+    """own_names: the caller's objects may carry names the formats reserve, definitions under the writers' names, texts outside ASCII
+    (C14's own streams ask for it; other users of this generator, C20, get the descriptions they always got)"""
     d = M.gen_matrix(rng, {"floats": False, "limits": True, "cycle": True, "maxframes": 4, "multiline_comments": True})
     while common_prefix and len(d["frames"]) < 2:
         d = M.gen_matrix(rng, {"floats": False, "limits": True, "cycle": True, "maxframes": 4, "multiline_comments": True})
@@ -92,6 +94,8 @@ def gen_desc(rng, many_groups=False, common_prefix=False):
     if fr and rng.random() < 0.15:
         # a frame whose length was never set (0) although it has signals: the writers must not set it either
         rng.choice(fr)["size"] = 0
+    if not own_names:
+        return d
     # the caller's own objects carry names the formats use for their bookkeeping
     r3 = rng.random()
     if fr and r3 < 0.3:
@@ -173,25 +177,25 @@ def build(d):
 def gen(rng, tier, shard, nshards):
     nmat = 1 if tier == "quick" else 20 // nshards + 1
     for _ in range(nmat):
-        d = gen_desc(rng)
+        d = gen_desc(rng, own_names=True)
         for w1 in WKEYS:
             for w2 in WKEYS:
                 yield {"op": "exp", "c": {"m": d, "w1": w1, "w2": w2}}
     for _ in range({"quick": 60, "thorough": 600}[tier] // nshards + 1):
-        yield {"op": "exp", "c": {"m": gen_desc(rng), "w1": rng.choice(WKEYS), "w2": rng.choice(WKEYS)}}
+        yield {"op": "exp", "c": {"m": gen_desc(rng, own_names=True), "w1": rng.choice(WKEYS), "w2": rng.choice(WKEYS)}}
     # the other configurations of the writers: every ordered pair of configurations of one format (one of them not the plain one) on
     # one matrix, and random pairs of any two configurations
     for _ in range(nmat):
-        d = gen_desc(rng)
+        d = gen_desc(rng, own_names=True)
         for w1 in CKEYS:
             for w2 in [w1] + SIBLINGS[w1]:
                 if w1 in VARIANTS or w2 in VARIANTS:
                     yield {"op": "exp", "c": {"m": d, "w1": w1, "w2": w2}}
     for _ in range({"quick": 60, "thorough": 600}[tier] // nshards + 1):
         w1 = rng.choice(CKEYS)
-        yield {"op": "exp", "c": {"m": gen_desc(rng), "w1": w1, "w2": rng.choice(CKEYS if w1 in VARIANTS else sorted(VARIANTS))}}
+        yield {"op": "exp", "c": {"m": gen_desc(rng, own_names=True), "w1": w1, "w2": rng.choice(CKEYS if w1 in VARIANTS else sorted(VARIANTS))}}
     if shard < 2:
-        ms = [gen_desc(rng, many_groups=(k == 0), common_prefix=(k == 1)) for k in range(3 if tier == "quick" else 10)]
+        ms = [gen_desc(rng, many_groups=(k == 0), common_prefix=(k == 1), own_names=True) for k in range(3 if tier == "quick" else 10)]
         # seeds 19, 23, 40 give three further iteration orders of {'Multiplexor', 0, 1, 2, 3, 5, …, 233} on CPython 3.12 (found by search)
         seeds = [0, 19, 23, 40, 7, 31] if tier == "quick" else [0, 19, 23, 40, 7, 31, 35, 47, 51, 54, 59, 1]
         if shard == 1:
@@ -211,7 +215,7 @@ def neighbours(case, rng, shard, nshards):
     if case["op"] != "exp":
         return
     for _ in range(40 // nshards + 1):
-        yield {"op": "exp", "c": {"m": gen_desc(rng), "w1": case["c"]["w1"], "w2": case["c"]["w2"]}}
+        yield {"op": "exp", "c": {"m": gen_desc(rng, own_names=True), "w1": case["c"]["w1"], "w2": case["c"]["w2"]}}
         yield {"op": "exp", "c": {"m": case["c"]["m"], "w1": case["c"]["w1"], "w2": rng.choice(CKEYS)}}
 
 
